@@ -15,7 +15,7 @@ def _cfgset(names):
 
 
 def plan_value(prop, srcs, tier, parts=(1, 2, 3, 4), san=True, landmarks=configs.LANDMARKS, extra=(),
-               libs=(), san_parts=None, clang_all=False, plain_variant='plain', max_cfgs=None):
+               libs=(), san_parts=None, clang_all=False, plain_variant='plain', max_cfgs=None, incdirs=(), extra_variants=()):
     """Standard plan for value properties: ladder cover configs x parts with g++ C++11 plain,
     clang++ C++20 on three configs, ASan+UBSan on four configs (quick) / all (thorough)."""
     if tier == 'thorough':
@@ -29,17 +29,22 @@ def plan_value(prop, srcs, tier, parts=(1, 2, 3, 4), san=True, landmarks=configs
         for i, c in enumerate(cfgs):
             std = 11 if tier == 'quick' else STD_ROT[i % 4]
             for p in sparts:
-                jobs.append(Job(src, c, 'g++', std, plain_variant, p, extra=extra, libs=libs))
+                jobs.append(Job(src, c, 'g++', std, plain_variant, p, extra=extra, libs=libs, incdirs=incdirs))
         clang_cfgs = cfgs if (tier == 'thorough' or clang_all) else [c for c in cfgs if configs.name(c) in CLANG_QUICK]
         for i, c in enumerate(clang_cfgs):
             std = 20 if tier == 'quick' else STD_ROT[(i + 2) % 4]
             for p in sparts:
-                jobs.append(Job(src, c, 'clang++', std, plain_variant, p, extra=extra, libs=libs))
+                jobs.append(Job(src, c, 'clang++', std, plain_variant, p, extra=extra, libs=libs, incdirs=incdirs))
         if san:
             san_cfgs = cfgs if tier == 'thorough' else [c for c in cfgs if configs.name(c) in SAN_QUICK]
             for c in san_cfgs:
                 for p in sparts:
-                    jobs.append(Job(src, c, 'g++', 11, 'san', p, extra=extra, libs=libs))
+                    jobs.append(Job(src, c, 'g++', 11, 'san', p, extra=extra, libs=libs, incdirs=incdirs))
+        for ev_variant, ev_names in extra_variants:
+            for c in cfgs:
+                if configs.name(c) in ev_names:
+                    for p in sparts:
+                        jobs.append(Job(src, c, 'g++', 11, ev_variant, p, extra=extra, libs=libs, incdirs=incdirs))
     # biggest jobs first (wide configs compile longest)
     jobs.sort(key=lambda j: -len(configs.closure(j.cfg)) - (8 if j.variant == 'san' else 0))
     return jobs, cfgs, lad
@@ -61,13 +66,15 @@ def std_args(tier, seed, prop):
     return f
 
 
-def value_check(prop, src, tier, seed, rule, assumptions, parts=(1, 2, 3, 4), cls_kind='int', **kw):
+def value_check(prop, src, tier, seed, rule, assumptions, parts=(1, 2, 3, 4), cls_kind='int', on_build_fail=None, post=None, **kw):
     res = Result(prop, tier, seed)
     res.cls_kind = cls_kind
     build.prune_cache()
     jobs, cfgs, lad = plan_value(prop, src, tier, parts=parts, **kw)
-    run_jobs(res, jobs, prop, std_args(tier, seed, prop), timeout=3000 if tier == 'thorough' else 1200)
+    run_jobs(res, jobs, prop, std_args(tier, seed, prop), timeout=3000 if tier == 'thorough' else 1200, on_build_fail=on_build_fail)
     ladder_extra(res, lad, cfgs)
+    if post:
+        post(res)
     return finish(res, 'exploration', rule, assumptions, min_cells=len(cfgs))
 
 
@@ -193,6 +200,125 @@ def c13(tier, seed):
                        assumptions=COMMON_ASSUME + ['glibc classification macros are the reference'])
 
 
+def c11(tier, seed):
+    return value_check('C11', [('c11_round.cpp', FLT2), ('c11_env.cpp', ALL6)], tier, seed, cls_kind='flt',
+                       rule=GEN_FLT + 'ceil/floor/trunc/round/nearbyint/rint vs glibc under each of the four rounding modes, bit-identical modulo NaN payload. '
+                       'FP-environment clause: MXCSR control bits (RC, FTZ, DAZ, exception masks), the x87 control word and fegetround() are snapshotted before and after every call of the float '
+                       'drivers and of a sweep of ~90 operations per vector type (ints, floats, masks, loads/stores, denominators, scalar functions) run under down/up/zero/nearest+FTZ+DAZ/up+FTZ+DAZ; '
+                       'sticky exception flags are ignored. distinct = (config, build, type, op@mode, input class).',
+                       assumptions=COMMON_ASSUME + ['glibc libm is the reference (the statement names the C library)',
+                                                    'the FP state of a call that trapped is restored by the harness (Linux resets it on signal entry) and not compared'])
+
+
+def c14(tier, seed):
+    scal = ['none', 'X86', 'LZCNT', 'BMI2', 'X86+POPCNT+LZCNT+BMI+BMI2', 'SSE2', 'AVX2', 'ALL']
+    return value_check('C14', 'c14_denom.cpp', tier, seed, landmarks=scal,
+                       rule='8-bit: all (n, d!=0) pairs; 16-bit: all d x boundary numerators (0, +-1, MIN, MAX, multiples of d nearest both range ends +-2, d, d+-1, 2d...) + random (thorough: all n); '
+                       '32/64-bit: every power of two and neighbours, extremes, small primes, ~10^4 (quick) random d x the same numerator sets; div, /, %, /=, %=, value(); construction and use run under trap capture '
+                       '(SIGFPE); fold probes with constant divisors at -O2; UBSan for the constructor arithmetic. (MIN, -1) never generated. distinct = (config, build, type, (class(n), class(d))).',
+                       assumptions=COMMON_ASSUME, extra_variants=[('o0', ('X86', 'none')), ('o3', ('X86',))])
+
+
+def c15(tier, seed):
+    return value_check('C15', 'c15_vdenom.cpp', tier, seed,
+                       rule='vectors of DIFFERENT divisors per lane (consecutive and random selections from the C14 divisor sets; 8-bit: all numerators, otherwise per-lane boundary numerator sets), '
+                       'div, /, %, /=, %=, value(); broadcast constructor Denominator<V>(Denominator<T>(d)) for the C14 divisor set compared with the lane model; absence of a documented member is an api-missing event. '
+                       'Constructing the scalar Denominator<int64_t>(-1) (C14 finding) is not used as a broadcast source on x86 builds.',
+                       assumptions=COMMON_ASSUME)
+
+
+def c16(tier, seed):
+    scal = ['none', 'X86', 'POPCNT', 'LZCNT', 'BMI', 'BMI2', 'X86+POPCNT+LZCNT+BMI+BMI2', 'SSE2', 'SSE2+X86+POPCNT+LZCNT+BMI+BMI2', 'SSE4_1', 'AVX2',
+            'AVX2+X86+POPCNT+LZCNT+BMI+BMI2', 'F', 'F+VL+BW+DQ+CD', 'ALL']
+    return value_check('C16', [('c16_scalar_int.cpp', INT4), ('c16_scalar_flt.cpp', FLT2)], tier, seed, landmarks=scal,
+                       rule='differential monitor: for every scalar overload f and every vector type of that element type in the configuration, lane i of f(vector) must equal f(scalar) on the same input '
+                       '(inputs as in C06/C07/C12/C13; documented-undefined inputs excluded; float results compared by value, NaN~NaN, sign-of-zero-only differences counted as advisory). '
+                       'cmp_equal/.../cmp_greater_equal in both argument orders against __int128 comparison: all 8-bit pairs, 16-bit values x lattice, lattice^2 + random otherwise.',
+                       assumptions=COMMON_ASSUME)
+
+
+def c17(tier, seed):
+    from . import gen
+    gdir, nm, no = gen.c17_header()
+
+    def on_fail(job):
+        import re
+        recs = []
+        for sym in sorted(set(re.findall(r"undefined reference to [`']([^']*avel::convert[^']*)'", job.build_log))):
+            recs.append({'ev': 'viol', 'kind': 'undefined-reference', 'prop': 'C17', 'type': '?', 'op': 'convert', 'cls': 0, 'lane': -1,
+                         'in': 'symbol=' + sym.replace(',', ';')[:300], 'got': 'mandatory conversion declared but not defined', 'exp': 'defined'})
+        return recs
+
+    def post(res):
+        res.extra['conversions_mandatory_rule_derived'] = nm
+        res.extra['conversions_optional_scan_derived'] = no
+    return value_check('C17', 'c17_conv.cpp', tier, seed, parts=(0,), incdirs=[gdir], on_build_fail=on_fail, post=post,
+                       rule='conversion list = rule-derived mandatory pairs (identity + signed<->unsigned counterpart for every integer vector and mask type) + every other convert<To,From> specialisation '
+                       'found by scanning the current tree (width-1 cross-size ones). Vectors: every 8/16-bit value, lattice + random otherwise, vs static_cast per lane; converting constructors vs convert; '
+                       'avel::bit_cast byte-compared; masks: all 2^N patterns N<=16, structured+random otherwise, truth value per lane through Vector(mask)+count/any/all/none.',
+                       assumptions=COMMON_ASSUME)
+
+
+def c20(tier, seed):
+    res = Result('C20', tier, seed)
+    build.prune_cache()
+    jobs = []
+    lines = [('line64', []), ('line32-128', ['-DAVEL_L1_CACHE_LINE_SIZE=32', '-DAVEL_L2_CACHE_LINE_SIZE=128', '-DAVEL_L3_CACHE_LINE_SIZE=128']),
+             ('line128', ['-DAVEL_L1_CACHE_LINE_SIZE=128', '-DAVEL_L2_CACHE_LINE_SIZE=128', '-DAVEL_L3_CACHE_LINE_SIZE=128'])]
+    cfgs = [configs.parse(n) for n in (['none', 'X86', 'SSE2', 'AVX2', 'ALL'] if tier == 'quick' else ['none', 'X86', 'POPCNT', 'SSE2', 'SSE4_1', 'AVX', 'AVX2', 'F', 'F+VL+BW+DQ+CD', 'ALL'])]
+    for c in cfgs:
+        for lname, lflags in lines:
+            ex = ['-DVK_LINE="%s"' % lname] + lflags
+            for comp, std in (('g++', 11), ('clang++', 17)):
+                for var in ('plain', 'o0'):
+                    jobs.append(Job('c20_prefetch.cpp', c, comp, std, var, 0, extra=ex))
+            jobs.append(Job('c20_prefetch.cpp', c, 'g++', 11, 'san', 0, extra=ex + ['-fno-sanitize=pointer-overflow']))
+            if tier == 'thorough':
+                jobs.append(Job('c20_prefetch.cpp', c, 'g++', 20, 'o3', 0, extra=ex))
+    run_jobs(res, jobs, 'C20', std_args(tier, seed, 'C20'))
+    res.cls_trivial = lambda code: False
+    return finish(res, 'exploration',
+                  rule='prefetch_read/prefetch_write<L1|L2|L3> (untyped, default level, default n, typed with sizeof(T) in {1,4,24,64}) called with the pointer at every offset 0..63 of a line at the start of the data, '
+                  'across the page boundary inside the data, straddling into and lying inside inaccessible pages on both sides, on the last byte / first guard byte, nullptr, misaligned null-page and top-of-address-space '
+                  'pointers, x n in {0,1,2,31..33,63..65,127..129,255,4095..4097,3 pages}; read-only data pages make any write fault, a RW arena is compared with its snapshot; '
+                  'san build adds pointers just past / before small heap blocks. builds: with/without SSE macros, line sizes 64 / 32-128 / 128, g++ and clang++, -O0 and -O2. '
+                  'explicit AVEL_PREFETCH cannot be built (C19 finding). distinct = (config, build, line-size set, function, placement class).',
+                  assumptions=['page protection (kernel) and signal delivery are trusted', 'pointer-overflow UBSan is not used as an oracle (null + offset is outside the statement)'],
+                  min_cells=len(cfgs))
+
+
+def c18(tier, seed):
+    res = Result('C18', tier, seed)
+    build.prune_cache()
+    jobs = []
+    impls = [('overalloc-c++11', frozenset(), 11, []), ('overalloc-c++14', frozenset(), 14, []), ('aligned_alloc-c++17', frozenset(), 17, []),
+             ('aligned_alloc-c++20', frozenset(), 20, []), ('mm_malloc-c++11', configs.parse('SSE2'), 11, []), ('mm_malloc-c++17', configs.parse('SSE2'), 17, []),
+             ('mm_malloc-avx2-c++20', configs.parse('AVX2'), 20, [])]
+    parts = (1, 2, 3, 4, 5, 6, 7)
+    for name, cfg, std, ex in impls:
+        for p in parts:
+            jobs.append(Job('c18_alloc.cpp', cfg, 'g++', std, 'plain', p, extra=ex, extra_srcs=['kit/mlog.c'], cflags_override=['-O2', '-x', 'none']))
+            jobs.append(Job('c18_alloc.cpp', cfg, 'g++', std, 'san', p, extra=ex))
+        if tier == 'thorough' or std in (11, 17):
+            for p in parts:
+                jobs.append(Job('c18_alloc.cpp', cfg, 'clang++', std, 'plain', p, extra=ex, extra_srcs=['kit/mlog.c'], cflags_override=['-O2']))
+
+    def on_fail(job):
+        # the allocator header itself failing to compile in a supported configuration is C19's finding; here the
+        # implementation is simply unobservable -> retry with <cstdlib> pre-included so the allocation logic can still be monitored
+        return None
+    run_jobs(res, jobs, 'C18', std_args(tier, seed, 'C18'), env_fn=lambda j: {'VK_LSAN': '1'}, on_build_fail=on_fail, retry_extra=['-DVK_NEED_CSTDLIB'])
+    res.cls_trivial = lambda code: False
+    return finish(res, 'exploration',
+                  rule='per (implementation, sizeof(T) in {1,2,3,4,8,16,64}, A in {alignof(T),16,32,64,128,4096}): seeded random histories (quick 120 x 200 ops, thorough 3000 x 400) of allocate(n) '
+                  '(n in 0..4096, odd sizes favoured) / deallocate of a random live block / full verification; all 3-allocation histories over sizes {0,1,3,8,13} x 6 free orders; std::vector growth/copy/move/'
+                  'swap/shrink, std::list, std::map, rebind. Monitors: shadow map of live ranges (non-null, aligned to A, disjoint), full-range id-derived pattern re-verified periodically and at deallocation, '
+                  'malloc event log via interposed malloc/free/aligned_alloc/posix_memalign/memalign (each user range inside one live underlying block, each free an exact live base once, underlying-live == user-live '
+                  'at quiescent points and 0 at the end); san build: ASan heap errors, LeakSanitizer at exit, UBSan. distinct = (implementation, T, A, history kind, (size mod 8, op) class).',
+                  assumptions=['glibc malloc is trusted', 'the three implementations are selected by AVEL_SSE / __cplusplus exactly as in the header', 'where the C++17 path does not compile without <cstdlib> (C19 finding) the harness pre-includes it so the allocation logic can still be observed'],
+                  min_cells=len(impls))
+
+
 def c19(tier, seed):
     from . import c19 as m
     return m.run(tier, seed)
@@ -201,5 +327,5 @@ def c19(tier, seed):
 CHECKS = {
     'C19': c19,
     'C01': c01, 'C02': c02, 'C03': c03, 'C04': c04, 'C05': c05, 'C06': c06, 'C07': c07, 'C08': c08, 'C09': c09,
-    'C10': c10, 'C12': c12, 'C13': c13,
+    'C10': c10, 'C11': c11, 'C12': c12, 'C13': c13, 'C14': c14, 'C15': c15, 'C16': c16, 'C17': c17, 'C18': c18, 'C20': c20,
 }
